@@ -27,11 +27,21 @@ var c19Keep = regexp.MustCompile(`mutex\.(Lock|Unlock)\(\)|pending\.|\bcomplete\
 	`Submit\(|panicHandle|\.Exec\(\)|if stage\.IsAsync\(\)|execPool != nil|sm\.err|firstError|completedCallbackFn|stage\.Complete\(\)|` +
 	`stage\.execute\(|sendResponse\(|Stopped\(\)|ctx\.Done\(\)|p\.tasks <-|reject\(|ctx\.Err\(\)|task\.handle == nil`)
 
-func c19Steps(body *ast.BlockStmt) []string {
+// the request level (leaf_processor.go, task_handler.go): who answers a request — every return, every
+// response sent, the pipeline execution and the hand-over to the pool
+var c19KeepReq = regexp.MustCompile(`^return|stream\.Send\(|SendResponse\(|pipeline\.Execute\(|p\.process|processor\.Process\(|` +
+	`taskPool\.Submit\(|newExecutePipelineFn\(|^if err|RequestType|^default|^case `)
+
+func c19Steps(body *ast.BlockStmt) []string { return c19StepsKeep(body, c19Keep) }
+
+func c19StepsKeep(body *ast.BlockStmt, keep *regexp.Regexp) []string {
 	var out []string
 	emit := func(prefix, s string) {
 		s = strings.Join(strings.Fields(s), " ")
-		if c19Keep.MatchString(s) {
+		if i := strings.Index(s, "&protoCommonV1.TaskResponse{"); i >= 0 {
+			s = s[:i] + "&protoCommonV1.TaskResponse{…})" // the literal's fields are not part of the protocol
+		}
+		if keep.MatchString(s) {
 			out = append(out, prefix+s)
 		}
 	}
@@ -114,6 +124,26 @@ func c19Steps(body *ast.BlockStmt) []string {
 						var buf bytes.Buffer
 						_ = printer.Fprint(&buf, token.NewFileSet(), cc.Comm)
 						emit(prefix, "case "+buf.String()+":")
+					}
+					stmts(cc.Body, prefix+"case:")
+				}
+			case *ast.SwitchStmt:
+				if x.Init != nil {
+					stmts([]ast.Stmt{x.Init}, prefix)
+				}
+				if x.Tag != nil {
+					emit(prefix, "switch "+types.ExprString(x.Tag))
+				}
+				for _, cl := range x.Body.List {
+					cc := cl.(*ast.CaseClause)
+					if cc.List == nil {
+						emit(prefix, "default:")
+					} else {
+						var es []string
+						for _, e := range cc.List {
+							es = append(es, types.ExprString(e))
+						}
+						emit(prefix, "case "+strings.Join(es, ", ")+":")
 					}
 					stmts(cc.Body, prefix+"case:")
 				}
@@ -252,7 +282,46 @@ func init() {
 		if sr == nil {
 			return "", fmt.Errorf("LeafExecuteContext.SendResponse not found")
 		}
-		sb.WriteString("def sendResponseSteps : List String := " + LeanStrList(c19Steps(sr.Body)) + "\n")
+		sb.WriteString("def sendResponseSteps : List String := " + LeanStrList(c19Steps(sr.Body)) + "\n\n")
+		// the request level
+		_, lpf, err := ParseFile(repo, "query/leaf_processor.go")
+		if err != nil {
+			return "", err
+		}
+		returnsErr := false
+		for _, fn := range []string{"Process", "processDataSearch", "processMetadataSuggest"} {
+			fd := FindFunc(lpf, "leafTaskProcessor", fn)
+			if fd == nil {
+				return "", fmt.Errorf("leafTaskProcessor.%s not found", fn)
+			}
+			sb.WriteString("def leaf" + strings.ToUpper(fn[:1]) + fn[1:] + "Steps : List String := " + LeanStrList(c19StepsKeep(fd.Body, c19KeepReq)) + "\n\n")
+			if fn != "Process" {
+				// after pipeline.Execute the function must return nil: the completion callback has answered
+				l := fd.Body.List
+				ok := false
+				if len(l) > 0 {
+					if rs, isRet := l[len(l)-1].(*ast.ReturnStmt); isRet && len(rs.Results) == 1 {
+						if id, isID := rs.Results[0].(*ast.Ident); isID && id.Name == "nil" {
+							ok = true
+						}
+					}
+				}
+				if !ok {
+					returnsErr = true
+				}
+			}
+		}
+		sb.WriteString("/-- processDataSearch / processMetadataSuggest return something else than nil after the pipeline was executed -/\n")
+		sb.WriteString(fmt.Sprintf("def processReturnsPipelineErr : Bool := %v\n\n", returnsErr))
+		_, thf, err := ParseFile(repo, "query/task_handler.go")
+		if err != nil {
+			return "", err
+		}
+		hp := FindFunc(thf, "TaskHandler", "process")
+		if hp == nil {
+			return "", fmt.Errorf("TaskHandler.process not found")
+		}
+		sb.WriteString("def taskHandlerProcessSteps : List String := " + LeanStrList(c19StepsKeep(hp.Body, c19KeepReq)) + "\n")
 		return sb.String(), nil
 	}})
 }
